@@ -24,7 +24,7 @@ Ds(mn) == IF Full \/ mn = "bra" THEN AllD ELSE EdgeD
 \* window start / middle / 3, 2, 1 bytes before the window end, per mapping
 \* "custom": a user-declared bus (.map): LoROM-like ROM in banks 00-1F mirrored at 80-9F, RAM 7E-7F declared writable=1
 CustomDecls == << MapDecl("1", 0, 31, 32768, 65535, 32768, FALSE, 128, 159), MapDecl("2", 126, 127, 0, 65535, 65536, TRUE, NoMirror, NoMirror) >>
-Places(rom) == IF rom \in {"low", "custom"} THEN {32768 + 200, 49152, 65533 - 2, 65533, 65534} ELSE {12582912 + 200, 12615680, 12648445 - 2, 12648445, 12648446}
+Places(rom) == IF rom \in {"low", "custom"} THEN {32768 + 200, 49152, 65533 - 2, 65533, 65534} ELSE {12582912 + 200, 12615680, 12648445 - 2, 12648445, 12648446, 16646144 + 200}     \* (last: bank 0xFE, the end of the HiROM mirror)
 RelocRom(rom) == IF rom \in {"low", "custom"} THEN 163840 + 300 ELSE 12845056 + 300      \* 0x028000 / 0xC40000 (+300)
 RomStart(rom) == IF rom \in {"low", "custom"} THEN 32768 ELSE 12582912
 Ram == 8265728                                                              \* 0x7E2000
